@@ -26,6 +26,7 @@ type Obligation struct {
 	Expect string // "unsat" (proof) or "sat" (cover)
 	Pos    string
 	Quant  bool
+	Definite bool // the goal is literally false: reaching this point is the violation (no solver incompleteness involved)
 	Batched bool
 	Host   string // function under verification when the obligation arose in an inlined helper
 	// results
@@ -355,6 +356,7 @@ func (ex *Exec) load(st *State, loc *Loc) Value {
 	case "cell":
 		if name, shared := st.Shared[loc.Cell]; shared {
 			ex.oblige(st, "safety", "shared-after-go:"+name, []string{"C04", "C15"}, tFalse, token.NoPos, ex.fnKey)
+			ex.obls[len(ex.obls)-1].Definite = true
 		}
 		if v, ok := st.Cells[loc.Cell]; ok {
 			return v
@@ -398,6 +400,7 @@ func (ex *Exec) store(st *State, loc *Loc, v Value) {
 	case "cell":
 		if name, shared := st.Shared[loc.Cell]; shared {
 			ex.oblige(st, "safety", "shared-after-go:"+name, []string{"C04", "C15"}, tFalse, token.NoPos, ex.fnKey)
+			ex.obls[len(ex.obls)-1].Definite = true
 		}
 		st.Cells[loc.Cell] = v
 		st.DirtyCells[loc.Cell] = true
